@@ -401,6 +401,7 @@ class Checker:
             'undischarged': [n for n in names if n not in discharged],
             'trusted_base': sorted(self.assumed) + ['z3 %s (python3-vt)' % z3.get_version_string(), '/usr/bin/cvc5 (fallback)', 'pyvc VC generator (this repository, /verif/pyvc)'],
             'extraction_drops': front.DROPPED,
+            'verifier_self_test': getattr(self, 'selftest', None),
         }
         if bounded is not None:
             cov.update({
@@ -456,6 +457,20 @@ def check(prop, tier, seed):
     level = meta.get('level', 'proof' if names else 'exploration')
     if level == 'proof' and not names:
         ck.problems.append('zero obligations generated for a proof-level check')
+    ck.selftest = None
+    if tier == 'thorough' and names and not ck.problems:
+        # verifier self-test: every property-breaking edit of the catalogue must fail an obligation, every negative control must verify
+        try:
+            from . import mutants
+            res = mutants.run_catalogue(prop, verbose=False, jobs=4)
+            wrong = [r for r in res if r['status'] == 'WRONG']
+            ck.selftest = {'mutants_total': len(res), 'killed_or_control_ok': len([r for r in res if r['status'] == 'ok']),
+                           'fallback_only': [r['id'] for r in res if r['status'] == 'fallback-only'], 'skipped': [r['id'] for r in res if r['status'].startswith('skipped')],
+                           'wrong': [r['id'] for r in wrong]}
+            if wrong:
+                ck.problems.append('verifier self-test: catalogue entries with the wrong verdict: %s' % [r['id'] for r in wrong])
+        except Exception:
+            ck.problems.append('verifier self-test crashed: ' + traceback.format_exc()[-800:])
     ev = ck.write_evidence(bounded, level, meta.get('assumptions', []))
     for l in ck.known_lines:
         print(l)
